@@ -40,6 +40,15 @@ TResult ==
        [] sc.op = "spec_reuse" -> /\ Cur.ok
                                   /\ Cur.cproc = "/verif.v1.B/Second" /\ Cur.cisclient /\ Cur.cstype = 0
                                   /\ Cur.hproc = Cur.cproc /\ ~Cur.hisclient /\ Cur.hstype = Cur.cstype
+       \* the timeout that goes out with the request is what is left THEN (waited_ms after the stream was created):
+       \* never longer, and shorter by little (granularity + the time between computing the header and sending it)
+       [] sc.op = "deadline_wait" ->
+            /\ Cur.present
+            /\ LET left == sc.secs * 1000 - Cur.waited_ms
+                   sent == IF sc.proto = "connect" THEN Num(Cur.chars, Len(Cur.chars)) ELSE GrpcMillis(Cur.chars).ms
+               IN /\ (sc.proto = "connect" => ConnectGrammatical(Cur.chars))
+                  /\ (sc.proto # "connect" => GrpcGrammatical(Cur.chars) /\ GrpcMillis(Cur.chars).k = "ms")
+                  /\ sent <= left + 2 /\ sent >= left - 250
        \* the second exchange on a reused Request is consistent on its own: compressed iff at least the threshold, the
        \* header names an algorithm if the body is compressed (for unary Connect: exactly then), the message arrives
        [] sc.op = "enc_reuse" -> /\ Cur.ok1 /\ Cur.ok /\ Cur.same
